@@ -70,14 +70,20 @@ def exc_info():
 
 @target("pedal.sandbox.sandbox:Sandbox._execute_with_timeout")
 def _execute_with_timeout(self, code, filename, kind, **meta):
-    requires(instance_of(self, Sandbox) and is_list(self._current_patches) and is_list(self._current_stdout)
+    requires(instance_of(self, Sandbox) and is_list(self._current_patches) and is_list(self._current_stdout) and is_list(self._context)
+             and distinct(self._current_patches, self._current_stdout, self._context)
              and is_number(self.allowed_time) and is_dict(meta))
     abstract("timeout", raises=Exception, label="timeout",
              modifies=[items_of_any(), dict_of_any(), attr_of_any('exception'), attr_of_any('feedback'), attr_of_any('raw_output'),
                        attr_of_any('_next_context_id'), attr_of_any('result'), attr_of_any('output'),
-                       ghost('live_patches'), ghost('printed')])
+                       ghost('live_patches'), ghost('printed')],
+             on_any_exit=[forall(lambda j: is_obj(item(self._current_stdout, j)), 0, nitems(self._current_stdout))])
+    abstract("abandoned_stdout.getvalue", raises=ValueError, label="getvalue", ensures=[is_str(result)])
+    abstract("self.append_output", raises=None, label="append_output",
+             modifies=[attr_of_any('raw_output'), attr_of_any('output'), items_of_any(), ghost('recorded_output')],
+             ensures=[ghost('recorded_output') == old(ghost('recorded_output')) + 1])
     modifies(everything(), ghost('runtime_feedback'), ghost('live_patches'),
-             ghost('printed'), ghost('stop_patches_calls'), ghost('captured'))
+             ghost('printed'), ghost('stop_patches_calls'), ghost('captured'), ghost('recorded_output'))
     raises_only(Exception)
     ensures_raises("a_timeout_never_escapes", TimeoutError, False)
     ensures("timeout_reported_exactly_once_and_patches_stopped", implies(
@@ -86,6 +92,10 @@ def _execute_with_timeout(self, code, filename, kind, **meta):
         and ghost('runtime_feedback') == old(ghost('runtime_feedback')) + 1 and instance_of(ghost_val('captured'), TimeoutError)))
     ensures("stdout_buffer_of_the_abandoned_run_is_dropped", implies(
         ghost('raised_timeout') == old(ghost('raised_timeout')) + 1, is_list(self._current_stdout)))
+    ensures("output_of_the_abandoned_run_recorded_at_most_once",
+            ghost('recorded_output') == old(ghost('recorded_output')) or
+            (ghost('raised_timeout') == old(ghost('raised_timeout')) + 1
+             and ghost('recorded_output') == old(ghost('recorded_output')) + 1))
     ensures("no_timeout_no_report_from_here", implies(ghost('raised_timeout') == old(ghost('raised_timeout')),
                                                       ghost('stop_patches_calls') == old(ghost('stop_patches_calls'))
                                                       and ghost('runtime_feedback') == old(ghost('runtime_feedback'))))
